@@ -431,7 +431,7 @@ impl Engine for HelpSim {
     }
     fn runs(&self, tier: Tier) -> u64 {
         match tier {
-            Tier::Quick => 40_000,
+            Tier::Quick => 300_000,
             Tier::Thorough => 10_000_000,
         }
     }
